@@ -12,11 +12,14 @@ import (
 	"fmt"
 	"hash/fnv"
 	"os"
+	"os/exec"
 	"path/filepath"
 	"runtime/debug"
 	"sort"
 	"strconv"
+	"strings"
 	"sync"
+	"sync/atomic"
 	"time"
 )
 
@@ -106,6 +109,7 @@ type Recorder struct {
 	notes       map[string]string
 	exhaustive  []string
 	prev        map[string]seqEntry
+	coldDone    map[string]int
 }
 
 func NewRecorder(prop string) *Recorder {
@@ -538,10 +542,18 @@ type seqEntry struct {
 
 // SeqCase is the replay form of a call-sequence violation.
 type SeqCase struct {
-	Kind  string `json:"kind"`
-	First any    `json:"first"`
-	Then  any    `json:"then"`
+	Kind    string  `json:"kind"`
+	First   any     `json:"first"`
+	Then    any     `json:"then"`
+	Disturb *uint64 `json:"disturb,omitempty"` // argument of the failing-calls hook run before First is evaluated again
 }
+
+// Disturb, when set (gen.Disturb), performs FAILING library calls chosen by its argument. ReportSeq runs
+// it between the evaluation of a case and the re-evaluation of the previous one, so that every case is also
+// evaluated right after failed calls: a failed call must leave nothing behind that reaches the next one.
+var Disturb func(n uint64)
+
+var disturbCtr atomic.Uint64
 
 // ReportSeq evaluates one case like Report and, in addition, re-evaluates the
 // PREVIOUS case of the same kind afterwards: the library's functions are pure
@@ -568,27 +580,48 @@ func (r *Recorder) ReportSeq(t TB, kind string, c any, oracle func() *Violation)
 	r.mu.Lock()
 	if r.prev == nil {
 		r.prev = map[string]seqEntry{}
+		r.coldDone = map[string]int{}
 	}
 	p, ok := r.prev[kind]
 	r.prev[kind] = seqEntry{c, oracle}
+	cold := r.env.Shard == 0 && r.coldDone[kind] < 2 && os.Getenv("VERIF_COLD") == ""
+	if cold {
+		r.coldDone[kind]++
+	}
 	r.mu.Unlock()
+	if cold {
+		// the first cases of every kind are also evaluated as the first library use of a fresh process
+		r.Eval()
+		r.Class("cold_start:" + kind)
+		if v := ColdEval(kind, c); v != nil {
+			r.Report(t, "cold", v)
+			return
+		}
+	}
 	if !ok {
 		return
 	}
 	r.Eval()
+	var dn *uint64
+	if n := disturbCtr.Add(1); Disturb != nil && n%3 == 0 {
+		dn = &n
+		Disturb(n / 3)
+	}
 	if pv := p.oracle(); pv != nil {
-		r.Report(t, "sequence", &Violation{Key: "state-carried-between-calls/" + pv.Key, Case: SeqCase{Kind: kind, First: p.c, Then: c},
+		r.Report(t, "sequence", &Violation{Key: "state-carried-between-calls/" + pv.Key, Case: SeqCase{Kind: kind, First: p.c, Then: c, Disturb: dn},
 			Msg: "a case that held when evaluated first no longer holds after another call of the same API (state is carried between calls):\n" + pv.Msg})
 	}
 }
 
 // SequenceReplayer returns the registry entry for kind "sequence".
 func SequenceReplayer(reg Registry) func(raw json.RawMessage) *Violation {
+	reg["cold"] = ColdReplayer()
 	return func(raw json.RawMessage) *Violation {
 		var sc struct {
-			Kind  string          `json:"kind"`
-			First json.RawMessage `json:"first"`
-			Then  json.RawMessage `json:"then"`
+			Kind    string          `json:"kind"`
+			First   json.RawMessage `json:"first"`
+			Then    json.RawMessage `json:"then"`
+			Disturb *uint64         `json:"disturb"`
 		}
 		if err := json.Unmarshal(raw, &sc); err != nil {
 			return Violf("", nil, "bad sequence case: %v", err)
@@ -606,6 +639,9 @@ func SequenceReplayer(reg Registry) func(raw json.RawMessage) *Violation {
 		}
 		if desc, _, changed := CheckRetained(); changed {
 			return Violf("earlier-result-changed-after-later-calls/"+desc, nil, "a result returned by the first case (%s) changed after the second case ran", desc)
+		}
+		if sc.Disturb != nil && Disturb != nil {
+			Disturb(*sc.Disturb / 3)
 		}
 		if v := f(sc.First); v != nil {
 			v.Key = "state-carried-between-calls/" + v.Key
@@ -687,3 +723,72 @@ func CheckRetained() (desc string, from any, changed bool) {
 
 // ResetRetained forgets everything (replay starts from a clean slate).
 func ResetRetained() { retMu.Lock(); retRing = nil; retMu.Unlock() }
+
+// ---------------------------------------------------------------- cold start
+
+// ColdCase is the replay form of a cold-start evaluation: the inner case is evaluated as the very first
+// use of the library in a fresh process.
+type ColdCase struct {
+	Kind string `json:"kind"`
+	Case any    `json:"case"`
+}
+
+// ColdEval evaluates the case (kind must be in the package's replay registry) as the FIRST library use of a
+// fresh process: the test binary re-executes itself with -test.run ^TestReplay$ on a temporary replay
+// file. Lazily initialised tables, sync.Once set-ups and warm pools are then in their start-up state,
+// which the long-running property process never sees again after its first call. Returns the child's
+// verdict (nil = holds, or could not be run: a spawn failure is not a violation).
+func ColdEval(kind string, c any) *Violation {
+	dir, err := os.MkdirTemp("", "verifcold")
+	if err != nil {
+		return nil
+	}
+	defer os.RemoveAll(dir)
+	path := filepath.Join(dir, "case.json")
+	b, err := json.Marshal(map[string]any{"kind": kind, "case": c})
+	if err != nil || os.WriteFile(path, b, 0o644) != nil {
+		return nil
+	}
+	cmd := exec.Command(os.Args[0], "-test.run=^TestReplay$", "-test.count=1", "-test.timeout=60s")
+	cmd.Env = append(os.Environ(), "VERIF_REPLAY="+path, "VERIF_EVDIR=", "VERIF_COLD=1")
+	out, _ := cmd.CombinedOutput()
+	s := string(out)
+	if i := strings.Index(s, "REPLAY-FAILS key="); i >= 0 {
+		rest := s[i+len("REPLAY-FAILS key="):]
+		key := rest
+		if j := strings.IndexByte(rest, '\n'); j >= 0 {
+			key = rest[:j]
+		}
+		key = strings.Trim(key, "\"")
+		msg := rest
+		if len(msg) > 1500 {
+			msg = msg[:1500]
+		}
+		return &Violation{Key: "cold-start/" + key, Case: ColdCase{Kind: kind, Case: c},
+			Msg: "evaluated as the first library call of a fresh process the case fails (it holds in a warmed-up process):\n" + msg}
+	}
+	if strings.Contains(s, "panic:") && !strings.Contains(s, "REPLAY-PASSES") {
+		if len(s) > 1500 {
+			s = s[:1500]
+		}
+		return &Violation{Key: "cold-start/panic", Case: ColdCase{Kind: kind, Case: c}, Msg: "fresh process panicked:\n" + s}
+	}
+	return nil
+}
+
+// ColdReplayer returns the registry entry for kind "cold".
+func ColdReplayer() func(raw json.RawMessage) *Violation {
+	return func(raw json.RawMessage) *Violation {
+		var cc struct {
+			Kind string          `json:"kind"`
+			Case json.RawMessage `json:"case"`
+		}
+		if err := json.Unmarshal(raw, &cc); err != nil {
+			return Violf("", nil, "bad cold case: %v", err)
+		}
+		if os.Getenv("VERIF_COLD") != "" {
+			return nil // never recurse
+		}
+		return ColdEval(cc.Kind, cc.Case)
+	}
+}
